@@ -420,14 +420,21 @@ func (e *Exec) loopHeader(fr *frame, li *loopInfo, b, pred *ssa.BasicBlock, st *
 		if fromInside {
 			kind = "inv-preserved"
 		}
+		// the panic-freedom obligations inside the loop are proved under the invariants: they serve the safety properties too
+		invProps := inv.Props
+		for _, sp2 := range e.propsFor(fr, "safety") {
+			if !hasPropExact(invProps, sp2) {
+				invProps = append(append([]string{}, invProps...), sp2)
+			}
+		}
 		g, err := e.evalSpecBool(inv.Expr, &specEnv{goal: true, into: st, st: st, old: e.entry, vars: vars, oldVars: e.entryVars, fr: fr, pkg: pkgOf(fr.fn)})
 		if err != nil {
 			// the clause no longer fits the code (e.g. it names a local that is gone): the obligation cannot be discharged
 			e.notes = appendUnique(e.notes, fmt.Sprintf("%s: invariant %s: %v", name, inv.Label, err))
-			e.oblige(st, fmt.Sprintf("%s/%s:%s", name, kind, inv.Label), inv.Props, BoolLit(false), fmt.Sprintf("contract clause cannot be evaluated on the current code: %v", err))
+			e.oblige(st, fmt.Sprintf("%s/%s:%s", name, kind, inv.Label), invProps, BoolLit(false), fmt.Sprintf("contract clause cannot be evaluated on the current code: %v", err))
 			continue
 		}
-		e.oblige(st, fmt.Sprintf("%s/%s:%s", name, kind, inv.Label), inv.Props, g, "")
+		e.oblige(st, fmt.Sprintf("%s/%s:%s", name, kind, inv.Label), invProps, g, "")
 	}
 	if fromInside {
 		// termination measure
